@@ -773,6 +773,19 @@ def decoded(fn):
     return fn()
 
 
+def enum_arg(cls, v, *key):
+    """An enumerated argument as a caller may write it: the enum member, or its plain integer / boolean value (the enums are
+    IntEnums: `1 == CrcFlag.WITH_CRC`, and the library accepts either).  Which spelling is used is a deterministic function
+    of the surrounding arguments, so every grid and every random run exercises all of them."""
+    import zlib
+    k = zlib.crc32(repr((cls.__name__, v) + key).encode()) % 4
+    if k == 1:
+        return int(v)
+    if k == 2 and v in (0, 1):
+        return bool(v)
+    return cls(v)
+
+
 def owned(packfn):
     """pack() of the object under test, with the caller doing what callers do with the returned buffer: it is extended and
     overwritten in place (e.g. to append a payload), then the object is packed again.  The second result is returned; it is
